@@ -139,20 +139,26 @@ def run_history(real, rng, n_ops, t):
                          "filter_packages_tags_copy", "filter_tags", "filter_tags_copy", "facet_collection"])
         try:
             if op == "insert":
-                cands = [p for p in PKGS if p not in m.db]          # distinct package names (domain of the property)
+                # a reversed view has tags as its "packages" and packages as its "tags": insert in its own universe
+                rev = any(k in PKGS for k in m.rdb) or any(k in TAGS for k in m.db)
+                names, tagpool = (TAGS + ["zz"], PKGS) if rev else (PKGS, TAGS)
+                cands = [p for p in names if p not in m.db]         # distinct package names (domain of the property)
                 if not cands:
                     continue
                 pkg = rng.choice(cands)
-                tags = set(rng.sample(TAGS, rng.randint(0, 3)))
+                tags = set(rng.sample(tagpool, rng.randint(0, 3)))
                 ops.append([i, "insert", pkg, sorted(tags)])
                 d.insert(pkg, set(tags))
                 m.insert(pkg, tags)
             elif op == "read":
                 if m.db or m.rdb:
                     continue
-                names = rng.sample(PKGS, rng.randint(1, 3))
+                names = rng.sample(PKGS, rng.randint(1, 4))
                 lines = []
-                for nm in names:
+                while names:
+                    grp = names[:rng.choice([1, 1, 2, 3])]
+                    names = names[len(grp):]
+                    nm = ", ".join(grp)                           # several packages on one line share the line's tags
                     ts = rng.sample(TAGS, rng.randint(0, 3))
                     lines.append("%s: %s\n" % (nm, ", ".join(ts)) if ts else "%s\n" % nm)
                 use_filter = rng.random() < 0.4
